@@ -1219,6 +1219,21 @@ class PendingImport(PendingNode[Import]):
             else:
                 asname = _alias.asname
 
+            if _alias.asname is None and "." in _alias.name:
+                # `import a.b` imports the submodule and binds the top-level package `a`,
+                # which is what `__import__("a.b")` returns
+                result.append(
+                    self.nsp.get_assign(
+                        _alias.name.split(".")[0],
+                        Call(
+                            func=Name(id="__import__", ctx=Load()),
+                            args=[Constant(value=_alias.name)],
+                            keywords=[],
+                        ),
+                    )
+                )
+                continue
+
             result.append(
                 self.nsp.get_assign(
                     asname,
